@@ -46,6 +46,17 @@ def fileLock (t : Table) (ofd : Nat) (mode : Mode) : Table × Option Int :=
   | (t', .wouldBlock) => (t', some (errnoStatus 11))
   | (t', .blocks) => (t', none)
 
+/-- `zix_file_lock` when signals interrupt the first `k` `flock` calls (each then fails with EINTR and
+leaves the table as it was).  With the retry loop (`lockRetriesOnEintr`, regenerated from the source)
+the call is simply made again; without it the first interruption is reported as an error.
+Returns the table, the status (`none` = still blocked) and the number of `flock` calls made. -/
+def fileLockSig (t : Table) (ofd : Nat) (mode : Mode) : (k : Nat) → Table × Option Int × Nat
+  | 0 => let r := fileLock t ofd mode; (r.1, r.2, 1)
+  | k + 1 =>
+    if lockRetriesOnEintr then
+      let r := fileLockSig t ofd mode k; (r.1, r.2.1, r.2.2 + 1)
+    else (t, some (errnoStatus 4), 1)
+
 def fileUnlock (t : Table) (ofd : Nat) (mode : Mode) : Table × Option Int :=
   match flock t ofd (unlockFlags mode) with
   | (t', .ok) => (t', some 0)
